@@ -1000,6 +1000,14 @@ impl Context {
                     ErrorType::Unknown,
                 ));
             }
+            Some(VariableExpression::Function(_)) => {
+                // A function with the same name is a conflict as well
+                return Err(TyperError::ValueAlreadyDefined(
+                    name.clone(),
+                    ErrorType::Unknown,
+                    ErrorType::Unknown,
+                ));
+            }
             Some(VariableExpression::EnumValueUntyped(_, _)) => {
                 panic!("Non-untyped enum value ended up in parent scope")
             }
